@@ -24,6 +24,8 @@ func runC14(r *engine.Run) {
 	r.Rule("AGREE-lockstep", "MergeState builds the key list and the node list in lock step: every block that appends to or resets one of them does the same to the other, so that keys[i] always belongs to nodes[i] when they are handed to MultiPutNode")
 	r.Rule("AGREE-typecode", "GetSerializationPrefix (type -> code) and CreateNode (code -> constructor) are inverse on the four node types")
 	r.Rule("AGREE-origin", "OriginTracker.Write and OriginTracker.Read use the same (byte order, field) sequence; writeNodePrefix and CreateNode agree on the header order (one code byte, then the origin tracker, then the body)")
+	r.Rule("ORDER-KEY-save", "see C04: UpdateChanges writes each copy under GetHashBytes() of that very copy and applies no node mutator to the copies (origin, version, value and children are part of the hash)")
+	r.Rule("AGREE-setters", "every parameter of the node constructors (NewLeafNode, NewFullNode, NewExtensionNode) and of the node setters (SetValue, PutChild, SetOrigin, SetVersion, SetOriginTracker) reaches a field or an array-field element of the node, directly or through the setters it calls; the origin tracker copy carries over both origin and version")
 	r.Rule("AGREE-clonefields", "in the Clone/CloneNode methods of the node types (and of the origin tracker they embed), whenever a value read from field F of the source (directly or through a plain getter) is handed to a setter, constructor or helper, the parameter it is bound to is stored into field F of the copy - origin into origin, version into version (getter/setter/constructor summaries over static callees, two levels)")
 	r.Rule("AGREE-fields", "for each node type the number of separators written by encode (with constant loop multiplicity) equals the number of separator scans in Decode, the fields are written and read in the same order, child keys are hex on both sides and the node key raw on both sides, and the only fields that may contain a separator byte (value bytes, raw node key) are written after the last separator")
 	r.Rule("FRESH-bytes", "see C03: the byte slices handed out by the node accessors (MarshalMsg, Encode, GetHashBytes, GetValueBytes in core/util) are new buffers on every return: nil, make/conversion results, results of calls that produce new buffers, or appends to such; never a field, element, global or map entry. FRESH-node relies on this, and callers of GetNodeValueRaw own (and may overwrite) the slice they get")
@@ -40,6 +42,8 @@ func runC14(r *engine.Run) {
 	freshNode(r, "C14")
 	agreeFieldSet(r, "AGREE-fieldset")
 	agreeCloneFields(r, "AGREE-clonefields")
+	agreeSetters(r, "AGREE-setters")
+	orderKeySave(r)
 }
 
 func keyOwnHash(r *engine.Run) {
@@ -1044,4 +1048,144 @@ func agreeCloneFields(r *engine.Run, rule string) {
 	if n < 2 {
 		r.Anchor(rule, fmt.Errorf("unresolved anchor: only %d field hand-overs found in the Clone/CloneNode methods of the node types", n))
 	}
+}
+
+// ---- AGREE-setters: constructors and setters store what they are given -------------------------
+
+// Every trie operation builds and rewrites nodes through a handful of
+// constructors and setters. A constructor that forgets one of its arguments
+// (NewLeafNode without the path, NewExtensionNode without the child key) or a
+// setter that stores nothing yields nodes that hash, encode and look up as
+// something else than the operation intended; no walk rule sees that, because
+// the walks hand over the right arguments.
+//
+// Rule: each parameter of the node constructors and of the node setters reaches
+// a field (or an element of an array field) of the node, directly or through
+// the setters it calls (parameter-to-field summaries, interface calls resolved
+// through the call graph).
+func agreeSetters(r *engine.Run, rule string) {
+	cg := r.P.RepoCG()
+	ctors := map[string]bool{"NewLeafNode": true, "NewFullNode": true, "NewExtensionNode": true}
+	setters := map[string]bool{"SetValue": true, "PutChild": true, "SetOrigin": true, "SetVersion": true, "SetOriginTracker": true}
+	n := 0
+	for _, f := range funcsOfPkg(r, pkgUtil) {
+		if f.Parent() != nil || len(f.Blocks) == 0 || isGenFile(r, f.Pos()) {
+			continue
+		}
+		isCtor := f.Signature.Recv() == nil && ctors[f.Name()]
+		isSetter := f.Signature.Recv() != nil && setters[f.Name()] && (nodeTypeNames[recvNamed(f)])
+		if !isCtor && !isSetter {
+			continue
+		}
+		r.Touch(f)
+		pf := paramFieldsIdx(cg, f, 0)
+		for i, p := range f.Params {
+			if i == 0 && f.Signature.Recv() != nil {
+				continue
+			}
+			n++
+			var into []string
+			for k := range pf[i] {
+				into = append(into, k)
+			}
+			sort.Strings(into)
+			r.Check(len(into) > 0, rule, fn(f)+"|"+p.Name(), r.P.Pos(f.Pos()), "stored into "+strings.Join(into, ", "),
+				"parameter "+p.Name()+" of "+fn(f)+" does not reach any field of the node: the node is built or updated without it (a leaf without its path, an extension without its child key, a branch slot that keeps its old child), so it hashes, encodes and looks up as another node than the operation intended")
+		}
+	}
+	if n < 12 {
+		r.Anchor(rule, fmt.Errorf("unresolved anchor: only %d constructor/setter parameters found", n))
+	}
+	// the origin tracker copy covers both tracked fields
+	if f, err := r.P.Func(pkgUtil, "OriginTrackerNode", "Clone"); err == nil && len(f.Blocks) > 0 {
+		covered := map[string]bool{}
+		engine.Instrs(f, func(in ssa.Instruction) {
+			switch x := in.(type) {
+			case *ssa.Store:
+				if dst := engine.FieldOf(x.Addr); dst != nil {
+					if src := valueField(cg, f, x.Val, 0); src != "" {
+						covered[dst.Name()] = true
+					}
+				}
+			case *ssa.Call:
+				for _, sc := range calleesAt(cg, x) {
+					sub := paramFieldsIdx(cg, sc, 0)
+					off := argOffset(x)
+					for j, a := range x.Call.Args {
+						if valueField(cg, f, a, 0) == "" {
+							continue
+						}
+						for k := range sub[j+off] {
+							covered[k] = true
+						}
+					}
+				}
+			}
+		})
+		r.Check(covered["Origin"] && covered["Version"], rule, fn(f)+"|both tracked fields", r.P.Pos(f.Pos()), "the copy receives the source's origin and version",
+			fmt.Sprintf("the origin tracker copy does not carry over both tracked fields (origin: %v, version: %v): every CloneNode goes through it, so the copy a store keeps hashes differently from the node it was handed", covered["Origin"], covered["Version"]))
+	}
+}
+
+// paramFieldsIdx is paramFields extended to stores into elements of array fields
+// (fn.Children[i] = child).
+func paramFieldsIdx(cg *engine.RepoCG, g *ssa.Function, depth int) map[int]map[string]bool {
+	out := paramFields(cg, g, depth)
+	if g == nil || len(g.Blocks) == 0 || depth > 3 {
+		return out
+	}
+	idx := map[ssa.Value]int{}
+	for i, p := range g.Params {
+		idx[p] = i
+	}
+	add := func(i int, f string) {
+		if out[i] == nil {
+			out[i] = map[string]bool{}
+		}
+		out[i][f] = true
+	}
+	engine.Instrs(g, func(in ssa.Instruction) {
+		switch x := in.(type) {
+		case *ssa.Store:
+			if ia, ok := x.Addr.(*ssa.IndexAddr); ok {
+				// a parameter that selects the element written (fn.Children[fn.index(hex)] = ...)
+				for p, pi := range idx {
+					if dependsOn(ia.Index, p) {
+						if fld := engine.FieldOf(ia.X); fld != nil {
+							add(pi, fld.Name()+"[index]")
+						}
+					}
+				}
+			}
+			i, ok := idx[stripConv(x.Val)]
+			if !ok {
+				return
+			}
+			if ia, ok := x.Addr.(*ssa.IndexAddr); ok {
+				if fld := engine.FieldOf(ia.X); fld != nil {
+					add(i, fld.Name()+"[]")
+				} else if ld, ok := ia.X.(*ssa.UnOp); ok {
+					if fld := engine.FieldOf(ld.X); fld != nil {
+						add(i, fld.Name()+"[]")
+					}
+				}
+			}
+		case *ssa.Call:
+			for _, sc := range calleesAt(cg, x) {
+				if sc == g {
+					continue
+				}
+				sub := paramFieldsIdx(cg, sc, depth+1)
+				off := argOffset(x)
+				for j, a := range x.Call.Args {
+					if i, ok := idx[stripConv(a)]; ok {
+						for f := range sub[j+off] {
+							add(i, f)
+						}
+					}
+				}
+			}
+		}
+	})
+	return out
 }
